@@ -47,5 +47,7 @@ MCProgs(st) ==
     << Op("NR"), Op("RA"), Op("NR"), Op("RA"), Op("NR") >>,
     << Op("NR"), Op("NR"), Op("NR") >>,
     << Op("NR"), Rd(1), Rd(4096), Rd(4096), Rd(4096), Op("RM"), Op("RM") >>,
-    << Op("NR"), Rd(512), Rd(512), Rd(512), Op("NR"), Op("RA") >> }
+    << Op("NR"), Rd(512), Rd(512), Rd(512), Op("NR"), Op("RA") >>,
+    << Op("NR"), Rd(4096), Op("SRD"), Rd(4096), Op("SRD"), Op("RM"), Op("SRD"), Op("RM") >>,
+    << Op("RM"), Op("SRD"), Op("RM"), Op("SRD"), Op("RM") >> }
 =============================================================================
